@@ -1956,9 +1956,11 @@ class FileBuilder:
             self._build_dirs.created_dirs() + cache_file_created_dirs)
         dirs_to_remove = set([os.path.normcase(dir_) for dir_ in created_dirs])
         dirs_to_remove.update(self._build_dirs.norm_cased_error_created_dirs())
-        for dir_ in self._old_cache.created_dirs():
-            dirs_to_remove.discard(os.path.normcase(dir_))
 
+        # Note that dirs_to_remove may contain directories created during the
+        # previous build. We remove those as well if they are empty, because
+        # otherwise we couldn't remove their parents that were created during
+        # the current build. _create_dirs restores them below where possible.
         # Remove the files we built or rebuilt, including output files of the
         # previous build that were missing. restore_all() brings back the old
         # contents of the ones we backed up.
